@@ -175,6 +175,7 @@ func runC04(c *Ctx) {
 	c.Rule("C04.requeue", "coalesce.next forgets the key it dequeues on every path, so a change arriving while the previous value of the leaf is being sent is queued again (otherwise the subscriber never converges to the newest value)")
 	queueNextRepr(c, "C04.requeue")
 	resetRemoveAnnounce(c, "C04.reset-announce")
+	contentWriters(c, "C04.handles-keep-value")
 	c.Borrow("C11", map[string]string{"C11.token": "C04.wakeup", "C11.wait-set": "C04.wait-set"}, "a lost wake-up leaves the sender asleep with changes pending: the subscriber never converges")
 	c.Rule("C04.registration-kept", "a stream's registration survives the end of other streams: removeQuery prunes a node only when it holds neither clients nor children (a pruned node silently stops every later change from reaching the subscribers registered below it)")
 	removeQueryPrune(c, "C04.registration-kept")
